@@ -506,6 +506,10 @@ where
                     self.complete(returns)?;
                     Ok(CoroutineState::Complete(returns))
                 } else {
+                    // the body panicked or trapped, so it never reached its own
+                    // `Suspender::clean_current()`: do not leave a dangling suspender
+                    // as the "current" one of this thread
+                    Suspender::<Param, Yield>::clean_current();
                     let message = result.unwrap_err();
                     self.error(message)?;
                     Ok(CoroutineState::Error(message))
